@@ -303,10 +303,14 @@ func (c *Client) flushBuf(ctx context.Context, b *proto.Buffer) error {
 
 func (c *Client) flush(ctx context.Context) error {
 	if err := ctx.Err(); err != nil {
+		// Nothing is sent: drop what was encoded, so that it does not go out
+		// ahead of the next request.
+		c.writer = proto.NewWriter(c.conn, new(proto.Buffer))
 		return errors.Wrap(err, "context")
 	}
 	if deadline, ok := ctx.Deadline(); ok {
 		if err := c.conn.SetWriteDeadline(deadline); err != nil {
+			c.writer = proto.NewWriter(c.conn, new(proto.Buffer))
 			return errors.Wrap(err, "set write deadline")
 		}
 		// Reset deadline.
